@@ -151,7 +151,7 @@ func cmdCheck(args []string) int {
 	if profile == "" {
 		profile = "any"
 	}
-	timeout := 30
+	timeout := 40
 	if *tier == "thorough" {
 		timeout = 120
 	}
@@ -223,6 +223,37 @@ func cmdCheck(args []string) int {
 		}
 	}
 	res := vc.Solve(all, vc.SolveOpts{TimeoutS: timeout, Seed: seed, OutDir: outDir, Thorough: *tier == "thorough", Known: knownSet})
+	retried := 0
+	// second chance: an obligation that no solver refuted (only timeouts/unknowns) is tried again,
+	// alone on the machine, with three times the budget - a loaded machine must not turn into an alarm
+	var again []*vc.Oblig
+	idx := map[*vc.Oblig]int{}
+	for i, r := range res {
+		if r.Status != "failed" || r.O.Kind == "vacuity" || r.O.Kind == "cover" || knownSet[r.O.Name] {
+			continue
+		}
+		refuted := false
+		for _, a := range r.Answers {
+			if a.Result == "sat" || a.Result == "trivially-invalid" || strings.HasPrefix(a.Result, "error") {
+				refuted = true
+			}
+		}
+		if !refuted && len(again) < 24 {
+			again = append(again, r.O)
+			idx[r.O] = i
+		}
+	}
+	if len(again) > 0 {
+		res2 := vc.Solve(again, vc.SolveOpts{TimeoutS: timeout * 3, Seed: seed + 1, OutDir: outDir, Workers: 4, Thorough: *tier == "thorough", Known: knownSet})
+		for _, r2 := range res2 {
+			old := res[idx[r2.O]]
+			r2.Answers = append(old.Answers, r2.Answers...)
+			if r2.Status == "proved" {
+				retried++
+			}
+			res[idx[r2.O]] = r2
+		}
+	}
 	isKnown := func(name string) *knownFinding {
 		for i := range known.Findings {
 			if known.Findings[i].Property == *prop && known.Findings[i].Obligation == baseObligation(name) {
@@ -232,6 +263,7 @@ func cmdCheck(args []string) int {
 		return nil
 	}
 	var nObl, nProved, nVac, nKnown int
+	_ = retried
 	solverCount := map[string]int{}
 	solverSecs := 0.0
 	var failed []*vc.Result
@@ -404,6 +436,9 @@ func cmdCheck(args []string) int {
 	if len(coverCount) > 0 {
 		cov["return_site_covers"] = map[string]interface{}{"counts": coverCount, "unreachable": deadReturns,
 			"note": "per return site of every function under contract: is it reachable under the preconditions, invariants and assumed contracts (z3, 2 s)? unreachable sites hold their postconditions vacuously; listed, not failed"}
+	}
+	if retried > 0 {
+		cov["discharged_on_second_attempt"] = retried
 	}
 	if len(replayNotes) > 0 {
 		cov["known_finding_replays"] = replayNotes
